@@ -5,7 +5,8 @@ import Snel.Model.ReplayOrder
 
 * `hist cap=<n> k=<n> t=<ntypes> z=<event_per_zone> | tok | tok …` with the shard-machine tokens
   `S k ctx ty | F | ADV | RUN | X | D | C | LS` and the C04 observations
-  `P ctx` (REPLAY FOR c<ctx>), `PT ctx ty` (REPLAY ev<ty> FOR c<ctx>), `LAY` (on-disk layout).
+  `P ctx` (REPLAY FOR c<ctx>), `PT ctx ty` (REPLAY ev<ty> FOR c<ctx>), `LAY` (on-disk layout),
+  and `T secs` (scripted store clock for the following STOREs; ignored by the model).
 * `heap <max_rows> | <cursor> | <cursor> …`, a cursor being `ctx:k ctx:k …` or `-`.
 -/
 namespace Snel.ReplayProto
@@ -17,6 +18,10 @@ inductive RTok where
   | ls
   | replay (q : Sel)
   | lay
+  /-- `T <secs>`: the store clock reading stamped on the following events. Timestamps play no
+  role in where a row is stored or in which order it is replayed (append order), so the model
+  ignores the token; the histories move the clock backwards to check exactly that. -/
+  | clock
 
 def parseRTok (t : String) : Option RTok :=
   match words t with
@@ -29,6 +34,7 @@ def parseRTok (t : String) : Option RTok :=
   | ["C"] => some .compact
   | ["LS"] => some .ls
   | ["LAY"] => some .lay
+  | ["T", t] => do let _ ← t.toNat?; some .clock
   | ["P", c] => do some (.replay ⟨← c.toNat?, none⟩)
   | ["PT", c, ty] => do some (.replay ⟨← c.toNat?, some (← ty.toNat?)⟩)
   | _ => none
@@ -81,6 +87,7 @@ def answerHist (hd : List String) (toks : List String) : String :=
         | .compact => { st with s := compactRoundR z (drainAll st.s) }
         | .ls => { st with obs := showLs st.s nt :: st.obs }
         | .lay => { st with obs := showLay z st.s nt :: st.obs }
+        | .clock => st
         | .replay q => { st with obs := showReplay st.s st.wmem nt q :: st.obs })
         ⟨Shard.init cap km, [], []⟩
       " ; ".intercalate st.obs.reverse
